@@ -309,8 +309,19 @@ class Interp:
     def _cmp_outputs(self, out):
         ref = self.fresh()[0]
         for k in self.outs:
-            out.close("outputs/" + k.split(".")[-1], self.prob.get_val(k), ref[k], rtol=self.tol,
-                      atol=self.tol * 1e-3 * (1.0 + float(np.max(np.abs(ref[k])))) if self.cfg["topo"] == "aerostruct" else 0.0)
+            a, b = np.asarray(self.prob.get_val(k), float), np.asarray(ref[k], float)
+            fin = np.isfinite(b)
+            if not np.all(fin):
+                # a functional that is undefined at this point (Breguet fuel burn, hence cg and CM, at CL <= 0) is
+                # undefined in the fresh problem as well: the same entries must be undefined, the others must agree
+                out.true("outputs_undefined_pattern/" + k.split(".")[-1], a.shape == b.shape and np.array_equal(np.isfinite(a), fin),
+                         "reused problem and fresh problem disagree on which entries of %s are finite" % k)
+                self._undefined = True
+                if a.shape != b.shape or not np.any(fin):
+                    continue
+                a, b = a[fin], b[fin]
+            out.close("outputs/" + k.split(".")[-1], a, b, rtol=self.tol,
+                      atol=self.tol * 1e-3 * (1.0 + float(np.max(np.abs(b)))) if self.cfg["topo"] == "aerostruct" else 0.0)
 
     def apply(self, op, args):
         out = Outcome()
@@ -384,12 +395,33 @@ class Interp:
             # judged (strictly) - they carry the sensitivity to stale caches; the skipped comparisons are counted.
             polluted = self.fd_polluted
             outs_ref = self.fresh()[0]
+
+            def _fin(a, b, key):
+                """derivatives of a functional that is undefined at this point are undefined in the fresh problem too:
+                same pattern required, finite entries compared"""
+                a, b = np.asarray(a, float), np.asarray(b, float)
+                fin = np.isfinite(b)
+                if np.all(fin):
+                    return a, b
+                out.true("derivatives_undefined_pattern/" + key, a.shape == b.shape and np.array_equal(np.isfinite(a), fin),
+                         "reused and fresh problem disagree on which entries are finite")
+                if "undefined_point" not in self.labels:
+                    self.labels.append("undefined_point")
+                if a.shape != b.shape or not np.any(fin):
+                    return None, None
+                return a[fin], b[fin]
+
             if not polluted:
                 for k, v in J.items():
-                    sc = max(float(np.max(np.abs(Jref[k]))), 1e-12)
+                    v, Jref_k = _fin(v, Jref[k], "totals")
+                    if v is None:
+                        continue
+                    sc = max(float(np.max(np.abs(Jref_k))), 1e-12)
                     fmag = float(np.max(np.abs(outs_ref[k[0]]))) if k[0] in outs_ref else 1.0
+                    if not np.isfinite(fmag):
+                        fmag = 1.0
                     xmag = max(float(np.max(np.abs(self.prob.get_val(k[1])))), 1.0)
-                    out.close("totals/d_%s/d_%s" % (k[0].split(".")[-1], k[1].split(".")[-1]), v, Jref[k], rtol=self.tol,
+                    out.close("totals/d_%s/d_%s" % (k[0].split(".")[-1], k[1].split(".")[-1]), v, Jref_k, rtol=self.tol,
                               atol=self.tol * max(fmag, 1e-6) / xmag, scale=sc)
             else:
                 self.skipped_totals += 1
@@ -398,7 +430,10 @@ class Interp:
             for k, v in sj.items():
                 if k in sjref and sjref[k].shape == v.shape and k not in const:
                     comp = k[0].split(".")[-2]
-                    out.close("partials/%s:%s/%s" % (comp, k[0].split(".")[-1], k[1].split(".")[-1]), v, sjref[k],
+                    v, r = _fin(v, sjref[k], "partials")
+                    if v is None:
+                        continue
+                    out.close("partials/%s:%s/%s" % (comp, k[0].split(".")[-1], k[1].split(".")[-1]), v, r,
                               rtol=self.tol, atol=self.tol * 1e-6)
         for k, v in out.residuals.items():
             kk = k.split("/")[0]
